@@ -88,7 +88,11 @@ def selftest(pid, jobs=16):
     mod = importlib.import_module(f'scverif.rules.{pid.lower()}')
     muts = list(getattr(mod, 'MUTANTS', []))
     reps = list(getattr(mod, 'REPAIRS', []))
-    base = _findings(pid, None)
+    try:
+        base = _findings(pid, None)
+    except AnalysisError as e:
+        return {'mutants': len(muts), 'repairs': len(reps), 'summary': {'ERROR': 1},
+                'results': [{'rule': e.rule, 'name': 'baseline', 'status': 'ERROR', 'detail': e.reason}]}
     work = [(pid, 'mutant', m, base) for m in muts] + [(pid, 'repair', m, base) for m in reps]
     results = []
     if work:
